@@ -1738,6 +1738,11 @@ pub fn confirm(sc: &Scenario, class: &str, tries: u64) -> (bool, String) {
 /// so that an application can look up, and typically parse, the recipe that is referenced.)
 #[derive(Clone, Debug, serde::Serialize, serde::Deserialize, PartialEq)]
 pub struct DepthCase {
+    /// odd levels of the chain run on a parser of this other configuration (an application whose
+    /// callback looks a referenced recipe up with another parser - a metadata-only canonical one,
+    /// say); the even levels and the innermost parse on `cfg`
+    #[serde(default, skip_serializing_if = "Option::is_none")]
+    pub cfg2: Option<ParserCfg>,
     pub cfg: ParserCfg,
     pub outer: String,
     pub target: String,
@@ -1808,7 +1813,8 @@ fn depth_level(parser: &CooklangParser, dc: &DepthCase, outer: &str, level: u32,
     }
 }
 
-fn depth_chain(parser: &CooklangParser, dc: &DepthCase, outer: &str, level: u32, results: &RefCell<Vec<(u32, String)>>) {
+fn depth_chain(parsers: (&CooklangParser, &CooklangParser), dc: &DepthCase, outer: &str, level: u32, results: &RefCell<Vec<(u32, String)>>) {
+    let parser = if level % 2 == 1 && level != dc.depth { parsers.1 } else { parsers.0 };
     if level == dc.depth {
         let fp = match guarded(|| fp_result(&parser.parse(&dc.target), &dc.target, parser.converter())) {
             Outcome::Done(s) => s,
@@ -1817,7 +1823,7 @@ fn depth_chain(parser: &CooklangParser, dc: &DepthCase, outer: &str, level: u32,
         results.borrow_mut().push((level, fp));
         return;
     }
-    let next = || depth_chain(parser, dc, outer, level + 1, results);
+    let next = || depth_chain(parsers, dc, outer, level + 1, results);
     let fp = match guarded(|| depth_level(parser, dc, outer, level, results, Some(&next))) {
         Outcome::Done(s) => s,
         Outcome::Unwound => "UNWOUND".into(),
@@ -1853,9 +1859,22 @@ pub fn run_depth_case_reached(dc: &DepthCase) -> (Vec<Violation>, u64, u32) {
     let dc2 = dc.clone();
     let outer2 = outer.clone();
     let shared = build_parser(&dc.cfg);
+    let shared2 = build_parser(dc.cfg2.as_ref().unwrap_or(&dc.cfg));
+    let two = dc.cfg2.is_some();
+    // (the reference for the odd levels: the same call at top level on a never-used parser of THAT configuration)
+    let ref_outer2 = match &dc.cfg2 {
+        Some(c2) => {
+            let p2 = build_parser(c2);
+            match guarded(|| depth_level(&p2, &none, &outer, 0, &empty, None)) {
+                Outcome::Done(s) => s,
+                Outcome::Unwound => "UNWOUND".into(),
+            }
+        }
+        None => ref_outer.clone(),
+    };
     let handle = std::thread::Builder::new().name("cooksim-depth".into()).stack_size(stack).spawn(move || {
         let results = RefCell::new(Vec::new());
-        depth_chain(&shared, &dc2, &outer2, 0, &results);
+        depth_chain((&shared, if two { &shared2 } else { &shared }), &dc2, &outer2, 0, &results);
         results.into_inner()
     });
     let results = match handle.map(|h| h.join()) {
@@ -1869,7 +1888,7 @@ pub fn run_depth_case_reached(dc: &DepthCase) -> (Vec<Violation>, u64, u32) {
     let mut results = results;
     results.sort_by_key(|r| r.0);
     for (level, fp) in &results {
-        let (reference, what) = if *level == dc.depth { (&ref_target, "the innermost parse") } else { (&ref_outer, "a parse") };
+        let (reference, what) = if *level == dc.depth { (&ref_target, "the innermost parse") } else if *level % 2 == 1 { (&ref_outer2, "a parse (on the second parser)") } else { (&ref_outer, "a parse") };
         if fp != reference {
             out.push(Violation {
                 class: "depth-dependence".into(),
